@@ -198,6 +198,12 @@ def render_program(rng, sites, rich, style, layout):
         hdr += PICKY
         tests.insert(0, "def test_00_raises():\n    try:\n        assert [Picky(1)] == snapshot([1])\n    except ValueError:\n        pass\n")
     comment = "# a comment with ünïcödé\n" if layout.get("nonascii") else ""
+    if layout.get("odd_breaks"):
+        # characters which str.splitlines() treats as line boundaries but Python's tokenizer does not: a form feed (page break) between
+        # blocks, FS / GS / RS / NEL / LINE SEPARATOR / PARAGRAPH SEPARATOR inside a comment and inside a string literal
+        comment += "# page\x0c break, separators \x1c \x1d \x1e \x85 \u2028 \u2029 in a comment\nSEPARATORS = 'a\x1cb\x1dc\x1ed\x85e\u2028f\u2029g'\n\x0c\n"
+        if len(tests) > 1:
+            tests = tests[:1] + ["\x0c\nSEP2 = '\u2028'  # \x0c\n"] + tests[1:]
     if layout.get("late_import"):
         # further top-level imports below module-level snapshots and between the tests (e.g. after a sys.path change)
         mods = mods + ["", "import string as _late1"]
